@@ -8,6 +8,7 @@ Delegates to inner command check.
 from __future__ import annotations
 
 from dippy.cli import Classification, HandlerContext
+from dippy.core.bash import bash_join
 
 COMMANDS = ["env"]
 
@@ -39,6 +40,23 @@ def classify(ctx: HandlerContext) -> Classification:
             i += 1
             break
 
+        # -S STRING / --split-string=STRING: env splits STRING into the command to run
+        split_string = None
+        if token in ("-S", "--split-string"):
+            split_string = tokens[i + 1] if i + 1 < len(tokens) else ""
+            rest = tokens[i + 2 :]
+        elif token.startswith("--split-string="):
+            split_string = token[len("--split-string=") :]
+            rest = tokens[i + 1 :]
+        elif token.startswith("-S") and len(token) > 2:
+            split_string = token[2:]
+            rest = tokens[i + 1 :]
+        if split_string is not None:
+            inner_cmd = " ".join([split_string] + ([bash_join(rest)] if rest else []))
+            if not inner_cmd.strip():
+                return Classification("ask", description="env -S (no command)")
+            return Classification("delegate", inner_command=inner_cmd)
+
         if token in FLAGS_WITH_ARG:
             i += 2
             continue
@@ -59,5 +77,5 @@ def classify(ctx: HandlerContext) -> Classification:
 
     # Delegate to inner command check
     inner_tokens = tokens[i:]
-    inner_cmd = " ".join(inner_tokens)
+    inner_cmd = bash_join(inner_tokens)
     return Classification("delegate", inner_command=inner_cmd)
